@@ -40,7 +40,7 @@ FLOOR = {"quick": 400, "thorough": 8000}
 
 EXTS = ["colon_fence", "strikethrough", "deflist"]
 LEAF_KINDS = ["para", "para2", "heading", "code", "target", "unknown_dir", "unknown_role", "strike", "bad_option", "dupdef",
-              "unref_foot"]
+              "unref_foot", "code_nolexer"]
 TRACKED = ("block_quote", "bullet_list", "enumerated_list", "list_item", "note", "warning", "admonition", "container")
 
 _known = None
@@ -79,6 +79,9 @@ def emit(node, ctx, line0, chain, file):
             lines = [f"## {m} title"]
         elif k == "code":
             lines = ["~~~python", f"{m} = 1", "~~~"]
+        elif k == "code_nolexer":
+            # a language the highlighter has no lexer for (highlighting is on, the docutils default)
+            lines = ["~~~mermaid", f"{m} --> x", "~~~"]
         elif k == "target":
             lines = [f"({m.lower()})=", f"after target {m}"]
         elif k == "unknown_dir":
@@ -264,7 +267,8 @@ def check_case(acc, tree) -> list[dict]:
                 fh.write(content)
         src = os.path.join(tmp, "main.md")
         try:
-            doc, warn = front.docutils_parse(text, source_path=src, settings={"myst_enable_extensions": EXTS})
+            doc, warn = front.docutils_parse(text, source_path=src, settings={"myst_enable_extensions": EXTS,
+                                                                              "myst_highlight_code_blocks": True})
         except Exception as exc:  # noqa: BLE001
             return [mk(f"C04:render-raises:{type(exc).__name__}", tree, "document", f"{type(exc).__name__}: {exc}")]
     finally:
@@ -293,7 +297,7 @@ def check_case(acc, tree) -> list[dict]:
         elif k == "heading":
             cands = [p for p in doc.findall(lambda n: isinstance(n, (nodes.title, nodes.rubric))) if m in p.astext()]
             node = cands[0] if cands else None
-        elif k == "code":
+        elif k in ("code", "code_nolexer"):
             cands = [p for p in doc.findall(nodes.literal_block) if m in p.astext() and not isinstance(p.parent, nodes.system_message)]
             node = cands[0] if cands else None
         elif k == "target":
